@@ -56,6 +56,65 @@ func ZZ_C07_Admission() {
 	}
 }
 
+// zzWakeProbeCtx: a probing context (see zzNewProbe) that, the first time the code under test is about
+// to block in its select, lets one other complete operation run: a nested preemption at the blocking point.
+type zzWakeProbeCtx struct {
+	*zzProbeCtx
+	hook func()
+}
+
+func (c *zzWakeProbeCtx) Wait() <-chan struct{} {
+	if h := c.hook; h != nil {
+		c.hook = nil
+		h()
+	}
+	return c.zzProbeCtx.Wait()
+}
+
+// ZZ_C07_WokenRechecks: a sender that is about to block on the window is woken by a window update of
+// an arbitrary size (a real frame through receiveMessage): the wake-up alone admits nothing. If the
+// call then returns OK the window *after the credit* was at least min(size, W/2) and is debited by
+// exactly size; if it would block again the window holds exactly the credit. Added after seed
+// C07-r4m1 (check once, wait once, debit: a partial credit behind an oversize message admits the next
+// message at a deeply negative window).
+func ZZ_C07_WokenRechecks() {
+	w := zzverif.Int32()
+	zzverif.Assume(w >= 2 && w <= zzMaxW)
+	size := zzverif.Int()
+	zzverif.Assume(size >= 1 && size <= zzMaxW)
+	sw := zzverif.Int32()
+	zzverif.Assume(sw >= -zzMaxW && int64(sw) < int64(size) && sw < w/2)
+	delta := zzverif.Int32()
+	zzverif.Assume(delta >= 1 && delta <= zzMaxW && int64(sw)+int64(delta) <= zzMaxW)
+	s, _, _ := zzC07state(w)
+	s.sendWindow.Store(sw)
+	woken := false
+	ctx := &zzWakeProbeCtx{zzProbeCtx: zzNewProbe(func() bool { return len(s.sendWindowWait) == 0 })}
+	ctx.hook = func() {
+		msg, err := pmpx.BuildChannelWindow(pmpx.NewMessageWriterBuffer(ZZ_AcquireBuffer()), s.id, delta)
+		zzverif.Assert(err == nil, "build-window-frame")
+		m2, _, err := pmpx.ParseMessage(msg.Unwrap().Raw())
+		zzverif.Assert(err == nil, "parse-window-frame")
+		zzverif.Assert(s.receiveMessage(m2).OK(), "receive-window-ok")
+		woken = true
+	}
+	st := s.decrementSendWindow(ctx, zzverif.Virtual(size))
+	zzverif.Assert(woken, "blocked-sender-never-waited")
+	sw2 := int64(sw) + int64(delta)
+	after := int64(s.sendWindow.Load())
+	switch {
+	case st.OK():
+		zzverif.Assert(sw2 >= int64(size) || sw2 >= int64(w/2), "woken-sender-admitted-without-window")
+		zzverif.Assert(after == sw2-int64(size), "debit-equals-size")
+		zzverif.Reach("admitted")
+	case st.Code == zzWouldBlock.Code:
+		zzverif.Assert(after == sw2, "blocked-call-changed-window")
+		zzverif.Reach("blocked-again")
+	default:
+		zzverif.Assert(false, "unexpected-status")
+	}
+}
+
 // ZZ_C07_ClosedWhileBlocked: a sender blocked on the window returns the channel-closed status when
 // the channel context is cancelled (never OK, never a silent hang).
 func ZZ_C07_ClosedWhileBlocked() {
@@ -125,7 +184,15 @@ func ZZ_C07_Consume() {
 	ch := &channel{}
 	ch.refs.Store(2)
 	ch.state.Store(s)
-	data, ok, st := ch.ReceiveAsync(zzNewCtx())
+	// the consumer's own context may already be cancelled when it takes a message that is ready (the
+	// message is returned all the same): the consumed bytes must still be accounted for, or the sender
+	// waits for a credit that never comes (seed C07-r4m2)
+	cctx := zzNewCtx()
+	if zzverif.Bool() {
+		cctx.Cancel()
+		zzverif.Reach("cancelled-consumer")
+	}
+	data, ok, st := ch.ReceiveAsync(cctx)
 	zzverif.Assert(st.OK() && ok && len(data) == size, "message-returned")
 	total := int64(rb) + int64(size)
 	if len(conn.frames) == 0 {
